@@ -18,8 +18,16 @@ LWW_MODULES = ["DiscretModel.Lemmas.LwwEq"]
 INGEST_PROPS = {"C02", "C12"}
 INGEST_MODULES = ["DiscretModel.Lemmas.IngestKernelEq"]
 # T10: the order close < drain < cleanup at the end of LocalPeerService::start (translators/t10_conn_close.py)
+# T12: the decision of validate_deletion (translators/t12_deletion_kernel.py -> Gen/DeletionKernel.lean, Lemmas/DeletionKernelEq.lean)
+DELETION_PROPS = {"C01", "C12"}
+DELETION_MODULES = ["DiscretModel.Lemmas.DeletionKernelEq"]
 CONN_PROPS = {"C20"}
 CONN_MODULES = ["DiscretModel.Lemmas.ConnCloseEq"]
+
+
+# T11: prepare_new_room / prepare_new_auth / groups_placed_by_admins (translators/t11_roomnode_kernel.py -> Gen/RoomNodeKernel.lean)
+ROOMNODE_PROPS = {"C07", "C10"}
+ROOMNODE_MODULES = ["DiscretModel.Lemmas.RoomNodeKernelEq"]
 
 
 def repo_under_test():
@@ -35,7 +43,8 @@ def repo_under_test():
 
 def extra_modules(prop):
     return (list(ROOM_MODULES) if prop in ROOM_PROPS else []) + (list(LWW_MODULES) if prop in LWW_PROPS else []) \
-        + (list(INGEST_MODULES) if prop in INGEST_PROPS else []) + (list(CONN_MODULES) if prop in CONN_PROPS else [])
+        + (list(INGEST_MODULES) if prop in INGEST_PROPS else []) + (list(ROOMNODE_MODULES) if prop in ROOMNODE_PROPS else []) + (list(CONN_MODULES) if prop in CONN_PROPS else []) \
+        + (list(DELETION_MODULES) if prop in DELETION_PROPS else [])
 
 
 def pre_build(prop):
@@ -63,6 +72,16 @@ def pre_build(prop):
             common.write_if_changed("IngestKernel.lean",
                                     "/-! translator T8 FAILED on %s: %s -/\nexample : False := by decide\n" % (
                                         repo, str(e).replace("-/", "- /")))
+    if prop in DELETION_PROPS:
+        import common, t12_deletion_kernel
+        repo = repo_under_test()
+        try:
+            t12_deletion_kernel.main(repo)
+        except Exception as e:
+            problems.append("T12 (authorisation_service.rs validate_deletion -> Gen/DeletionKernel.lean): %s" % e)
+            common.write_if_changed("DeletionKernel.lean",
+                                    "/-! translator T12 FAILED on %s: %s -/\nexample : False := by decide\n" % (
+                                        repo, str(e).replace("-/", "- /")))
     if prop in CONN_PROPS:
         import common, t10_conn_close
         repo = repo_under_test()
@@ -72,6 +91,16 @@ def pre_build(prop):
             problems.append("T10 (peer_inbound_service.rs end of start -> Gen/ConnClose.lean): %s" % e)
             common.write_if_changed("ConnClose.lean",
                                     "/-! translator T10 FAILED on %s: %s -/\nexample : False := by decide\n" % (
+                                        repo, str(e).replace("-/", "- /")))
+    if prop in ROOMNODE_PROPS:
+        import common, t11_roomnode_kernel
+        repo = repo_under_test()
+        try:
+            t11_roomnode_kernel.main(repo)
+        except Exception as e:
+            problems.append("T11 (room_node.rs entitlement checks -> Gen/RoomNodeKernel.lean): %s" % e)
+            common.write_if_changed("RoomNodeKernel.lean",
+                                    "/-! translator T11 FAILED on %s: %s -/\nexample : False := by decide\n" % (
                                         repo, str(e).replace("-/", "- /")))
     if prop in LWW_PROPS:
         import common, t9_lww
@@ -91,10 +120,22 @@ def trusted(prop):
     if prop in CONN_PROPS:
         res.append("translator T10 translators/t10_conn_close.py (regex level): order of close / drain / cleanup at the end of "
                    "LocalPeerService::start, decided by Lemmas/ConnCloseEq.lean; ties the `close` step of Model/LockConn.lean to the source")
+    if prop in DELETION_PROPS:
+        res.append("translator T12 translators/t12_deletion_kernel.py: the decision of RoomAuthorisations::validate_deletion read statement by "
+                   "statement (signing of the re-dated rows read as the identity, construction/push of the deletion records as no-ops, any other "
+                   "unknown statement refused); structures Model/DeletionKernelTypes.lean (fields checked against the Rust structs on every run; "
+                   "short and full entity names are different types); Lemmas/DeletionKernelEq.lean ties it to LocalWrite.deleteNode / deleteRef / "
+                   "deleteRoomAdminRef for Defects.asImplemented")
     if prop in INGEST_PROPS:
         res.append("translator T8 translators/t8_ingest_kernel.py: validate_node, validate_node_deletions, validate_edge_deletions of "
                    "authorisation_service.rs read statement by statement; structures Model/IngestKernelTypes.lean (fields checked against the "
                    "Rust structs on every run); Lemmas/IngestKernelEq.lean ties them to Ingest.validateNode / nodeDelAccepted / edgeDelAccepted")
+    if prop in ROOMNODE_PROPS:
+        res.append("translator T11 translators/t11_roomnode_kernel.py: prepare_new_room, prepare_new_auth, groups_placed_by_admins of room_node.rs "
+                   "read statement by statement (`x.parse()?` is a parameter, not re-translated); structures Model/RoomNodeKernelTypes.lean (fields "
+                   "checked against the Rust structs on every run, no other field may be read); Lemmas/RoomNodeKernelEq.lean ties them to "
+                   "RoomNode.prepareNewRoom / prepareNewAuth / groupsPlacedByAdmins under the abstraction absRoom / absAuth (author and date of every row "
+                   "and of the references room -> group)")
     if prop in LWW_PROPS:
         res.append("translator T9 translators/t9_lww.py: the if-chain of Node::filter_existing read by rustmini.py; Lemmas/LwwEq.lean ties it to "
                    "Ingest.filterOne and Sync.wanted (signatures compared as their byte-order rank)")
@@ -114,9 +155,17 @@ def technique(prop):
     if prop in INGEST_PROPS:
         parts.append("T8: validate_node / validate_node_deletions / validate_edge_deletions are re-translated from authorisation_service.rs on "
                      "every run and proved equal to the model's decisions (Lemmas/IngestKernelEq.lean)")
+    if prop in DELETION_PROPS:
+        parts.append("T12: the decision of validate_deletion (node deletions, reference deletions incl. the right on the re-signed source row, "
+                     "the guard on references of authorisation entities) is re-translated from authorisation_service.rs on every run and proved "
+                     "equal to the model's deleteNode / deleteRef / deleteRoomAdminRef for the code as it is (Lemmas/DeletionKernelEq.lean)")
     if prop in CONN_PROPS:
         parts.append("T10: the order close-the-inbox < drain < unlock-the-drained at the end of LocalPeerService::start is re-read from "
                      "peer_inbound_service.rs on every run and decided (Lemmas/ConnCloseEq.lean)")
+    if prop in ROOMNODE_PROPS:
+        parts.append("T11: the entitlement checks of a room definition that is not known yet and of a group new to a known room (prepare_new_room, "
+                     "prepare_new_auth, groups_placed_by_admins) are re-translated from room_node.rs on every run and proved to decide as the model "
+                     "(Lemmas/RoomNodeKernelEq.lean)")
     if prop in LWW_PROPS:
         parts.append("T9: the last-writer-wins chain of Node::filter_existing is re-read from node.rs on every run and proved to be the model's "
                      "filter (Lemmas/LwwEq.lean)")
